@@ -115,8 +115,10 @@ class IORecord:
     maxsize = len(
         str(2**31 - 1)
     )  # limit to max short even though Python3 can go bigger.
-    _intFormat = " {{:>+{}}}".format(maxsize)
     _intLength = maxsize + 1
+    # sign and digits share the 11 columns (no fixed leading blank): text unchanged for
+    # |val| < 1e9, and the full 32-bit range keeps the field width the reader expects
+    _intFormat = "{{:>+{}}}".format(_intLength)
 
     _floatSize = struct.calcsize("f")
     _floatFormat = " {:+.16E}"
